@@ -89,6 +89,11 @@ namespace GeographicLib {
   }
 
   Math::real EllipticFunction::RG(real x, real y, real z) {
+    // Carlson's eq 1.7 (below) is symmetric in x and y only; the last two
+    // terms cancel unless (x-z) * (y-z) <= 0.  So make z the middle argument.
+    if ((x - z) * (y - z) > 0) {
+      if ((y - x) * (z - x) <= 0) swap(x, z); else swap(y, z);
+    }
     return (x == 0 ? RG(y, z) :
             (y == 0 ? RG(z, x) :
              (z == 0 ? RG(x, y) :
